@@ -122,6 +122,7 @@ class Flush(RuleAnalysis):
     """fact: frozenset flags: 'flushed' (since the last ssl call outcome), 'armed:<arm>'"""
     tokens = ("ssl.SSLWantReadError", "ssl.SSLWantWriteError", "ssl.SSLError", "OSError", CANCELLED)
     precise_raise_tokens = True
+    inline_helpers = True  # a flush block extracted into a private coroutine is read in place
 
     def __init__(self, engine, method_param):
         super().__init__(engine)
